@@ -31,10 +31,16 @@ class OutputStream:
 
     def _push(self, text: str):
         "Pushes raw string into output stream without any processing"
-        l = len(text)
         self._value.append(text)
-        self.offset += l
-        self.column += l
+        self.offset += len(text)
+        lines = split_lines(text)
+        if len(lines) > 1:
+            # The string itself holds line breaks: the output.newline string, a
+            # placeholder, or what a callback returned
+            self.line += len(lines) - 1
+            self.column = len(lines[-1])
+        else:
+            self.column += len(text)
 
     def push(self, text: str):
         "Pushes plain string into output stream without newline processing"
@@ -56,9 +62,8 @@ class OutputStream:
         "Pushes new line into given output stream"
         base_indent = self.options.get('output.baseIndent')
         newline = self.options.get('output.newline')
+        # Line and column follow from the string that is actually written
         self.push('%s%s' % (newline, base_indent))
-        self.line += 1
-        self.column = len(base_indent)
         if indent:
             self.push_indent(self.level if indent is True else indent)
 
